@@ -10,23 +10,25 @@
 (*                           ->  ("mut",  type, v, m)   for m in Mutants(type,v,K)  *)
 (* Names = types whose mutants are explored; PairNames = types whose pairs are;     *)
 (* FullNames = types explored on all of Vals (the others: minimal + richest value).  *)
+(* Universe = "protocol" (the types of Schema) or "ce" (the JAMNP-S messages).      *)
 EXTENDS CodecMut
-CONSTANTS Names, PairNames, FullNames, K
+CONSTANTS Names, PairNames, FullNames, K, Universe
 VARIABLES st, tn, v, w, m
 
 NoMut == [cls |-> "none", in |-> <<>>]
-Ty == Schema[tn]
+Ty == AnySchema[tn]
 
 RECURSIVE HasRest(_)
 HasRest(ty) ==
   CASE ty.k = "rest" -> TRUE
     [] ty.k = "struct" -> \E j \in 1..Len(ty.f) : HasRest(ty.f[j].t)
-    [] ty.k \in {"seq", "fseq", "opt"} -> HasRest(ty.of)
+    [] ty.k \in {"seq", "fseq", "opt", "seqx", "some"} -> HasRest(ty.of)
+    [] ty.k = "dstruct" -> \E j \in 1..Len(ty.f) : HasRest(ty.f[j].t)
     [] OTHER -> FALSE
 
 \* every schema type is round-tripped: on all of Vals for the types of FullNames, on the minimal and the richest value otherwise
-Init == /\ st = "val" /\ tn \in TypeNames
-        /\ v \in (IF tn \in FullNames THEN Vals(Schema[tn]) ELSE {MinV(Schema[tn]), MaxV(Schema[tn])})
+Init == /\ st = "val" /\ tn \in (IF Universe = "ce" THEN CETypeNames ELSE TypeNames)
+        /\ v \in (IF tn \in FullNames THEN Vals(AnySchema[tn]) ELSE {MinV(AnySchema[tn]), MaxV(AnySchema[tn])})
         /\ w = <<>> /\ m = NoMut
 Next == /\ st = "val"
         /\ \/ /\ tn \in PairNames /\ st' = "pair" /\ w' \in Vals(Ty) /\ m' = m
